@@ -33,7 +33,7 @@ def config_text(p, nb):
 
 
 def parse_abf_state(state):
-    m = re.search(r"abf \{.*?samples\s*\n(.*?)\n\s*\ngradient\s*\n(.*?)\n", state, re.S)
+    m = re.search(r"abf \{.*?samples\s*\n(.*?)\n\s*\ngradient\s*\n(.*?)\n\s*(?:\}|\n)", state, re.S)
     if not m:
         return None, None
     s = [int(float(t)) for t in m.group(1).split()]
@@ -277,7 +277,7 @@ def replay_chunk2(args):
                 got = run.act(a["a"], a["x"], a["f"], off)
                 bad = compare2(a, got, p, D)
                 if bad:
-                    res = ("mismatch", {"act": k, "fields": bad, "quirk": a.get("q", False), "got": got}, beh)
+                    res = ("mismatch", {"act": k, "fields": bad, "quirk": a.get("q", False) and not p.get("dev", False), "got": got}, beh)
                     break
             out.append(res)
             if d.dead:
@@ -342,7 +342,9 @@ def run2d(ctx):
     for b in behs[:1]:
         ctx.sample(b)
     replay_all2(ctx, behs, "2d-bfs-depth3")
-    replay_all2(ctx, s.beh[:(1200 if quick else 30000)], "2d-simulation")
+    sb = list(s.beh)
+    random.Random(ctx.seed + 12).shuffle(sb)
+    replay_all2(ctx, sb[:(1500 if quick else 30000)], "2d-simulation")
 
 
 # ------------------------------------------------------------------ trace validation (code -> spec)
@@ -436,7 +438,9 @@ def run(ctx):
     for b in behs[:2]:
         ctx.sample(b)
     replay_all(ctx, behs, "bfs-depth3")
-    sb = s.beh[:(1500 if quick else 40000)]
+    sb = list(s.beh)
+    random.Random(ctx.seed + 11).shuffle(sb)      # TLC prints simulated behaviours grouped by worker and parameter record
+    sb = sb[:(1500 if quick else 40000)]
     for b in sb[:1]:
         ctx.sample(b)
     replay_all(ctx, sb, "simulation")
